@@ -316,11 +316,11 @@ def replay(ctx, obj):
     return c2.failures[0]["what"] if c2.failures else None
 
 MANIFEST = {
-    "text": ("Proof. 20 Lean theorems over the element table regenerated from core/element.py on every run: the table equals an "
+    "text": ("Proof. 25 Lean theorems over the element table regenerated from core/element.py on every run: the table equals an "
              "independent 103-entry reference; every Z in 1..103 resolves, EVERY other integer is rejected (unbounded); symbols in "
              "every letter case, names, number strings (kernel-checked over the whole finite domain), padding and labels with an "
              "ARBITRARY suffix (general lemmas) resolve to the right element; any successful lookup is a table entry; the ordering "
-             "is a strict total order with carbon first; for every atom list the formula has each element once with its "
+             "is a strict total order with carbon first and the derived operators <=, >, >= agree with it; for every atom list the formula has each element once with its "
              "multiplicity and counts sum to the length. Lookup code is a hand model tied by an exhaustive correspondence run."),
     "note": ("Trusted: Lean kernel (axioms propext/Classical.choice/Quot.sound only), the AST translator of _ELEMENT_DATA, the hand "
              "model's ASCII semantics of str.strip/capitalize/lower/isdigit and re.match (non-ASCII input not modelled), Python "
